@@ -72,6 +72,9 @@ type Item struct {
 	Steps     []*Step
 	next      int
 	Exhausted bool // every scripted peer was used up and the getter asked one more
+
+	parked   bool // waits at the point where the caller's context is to end
+	finished bool // took an answer a correct getter accepts; it is not expected to ask again
 }
 
 // HonestServed reports whether some honest step of the item was consumed entirely while the
@@ -387,17 +390,66 @@ type ShrexNet struct {
 	height uint64
 	netw   *fakeNetwork
 
+	// Barrier makes the end of the caller's context wait until every other wire request of the call
+	// has either been answered acceptably or has itself arrived at the end of its script, so that
+	// what a multi-request call (GetSamples) observes does not depend on goroutine scheduling.
+	// The wait is bounded by BarrierGrace (a request that a faulty getter accepts early, or a slow
+	// machine, only costs determinism, never a verdict).
+	Barrier      bool
+	BarrierGrace time.Duration
+
 	mu      sync.Mutex
 	items   map[string]*Item
 	order   []*Item
+	settled chan struct{}
 	Log     []string
 	Opened  int
 	Unknown int // requests that matched no scripted item (answered honestly)
 }
 
+// acceptable lists the behaviours whose answer a correct getter accepts for a single-message
+// container (the honest bytes, possibly followed by bytes it does not read).
+var acceptable = map[string]bool{"honest": true, "extended": true, "repeated": true}
+
+func (n *ShrexNet) checkSettledLocked() {
+	for _, it := range n.order {
+		if !it.parked && !it.finished {
+			return
+		}
+	}
+	select {
+	case <-n.settled:
+	default:
+		close(n.settled)
+	}
+}
+
+// endContext is called by a stream whose script says that the caller's context ends now.
+func (n *ShrexNet) endContext(it *Item, reset <-chan struct{}) {
+	if n.Ctl == nil {
+		return
+	}
+	if it != nil && n.Barrier && len(n.order) > 1 {
+		n.mu.Lock()
+		it.parked = true
+		n.checkSettledLocked()
+		ch := n.settled
+		n.mu.Unlock()
+		tm := time.NewTimer(n.BarrierGrace)
+		select {
+		case <-ch:
+		case <-reset:
+		case <-tm.C:
+		}
+		tm.Stop()
+	}
+	n.Ctl.End()
+}
+
 // NewShrexNet builds the fake host. sq/height are what an honest server would answer from.
 func NewShrexNet(ctl *ScriptCtx, sq *vk.Square, height uint64, items []*Item) *ShrexNet {
-	n := &ShrexNet{Ctl: ctl, sq: sq, height: height, items: map[string]*Item{}, netw: &fakeNetwork{}}
+	n := &ShrexNet{Ctl: ctl, sq: sq, height: height, items: map[string]*Item{}, netw: &fakeNetwork{},
+		settled: make(chan struct{}), BarrierGrace: 300 * time.Millisecond}
 	for _, it := range items {
 		n.items[it.Proto+"|"+it.Key] = it
 		n.order = append(n.order, it)
@@ -480,6 +532,7 @@ type fakeStream struct {
 	mu       sync.Mutex
 	wbuf     bytes.Buffer
 	step     *Step
+	item     *Item
 	off      int
 	reset    chan struct{}
 	isReset  bool
@@ -540,11 +593,15 @@ func (s *fakeStream) resolve() {
 		}
 		n.Log = append(n.Log, fmt.Sprintf("?%s<-%s", s.proto, s.step.Kind))
 	case it.next < len(it.Steps):
+		s.item = it
+		it.finished = false
 		s.step = it.Steps[it.next]
 		it.next++
 		s.step.Started = true
 		n.Log = append(n.Log, fmt.Sprintf("%s<-%s", it.Desc, s.step.Kind))
 	default:
+		s.item = it
+		it.finished = false
 		it.Exhausted = true
 		s.step = &Step{Kind: "script-end", End: EndExpire, Started: true}
 		if n.Ctl == nil {
@@ -588,6 +645,10 @@ func (s *fakeStream) Read(p []byte) (int, error) {
 		st.Delivered = s.off
 		st.CtxAlive = alive
 		st.Spare = spare
+		if s.off == len(st.Data) && s.item != nil && st.End == EndEOF && (st.Honest || acceptable[st.Kind]) {
+			s.item.finished = true
+			s.net.checkSettledLocked()
+		}
 		s.net.mu.Unlock()
 		s.mu.Unlock()
 		return n, nil
@@ -612,9 +673,7 @@ func (s *fakeStream) Read(p []byte) (int, error) {
 		return 0, &network.StreamError{ErrorCode: st.Code, Remote: true}
 	case EndExpire:
 		s.mu.Unlock()
-		if s.net.Ctl != nil {
-			s.net.Ctl.End()
-		}
+		s.net.endContext(s.item, s.reset)
 	default:
 		s.mu.Unlock()
 	}
